@@ -70,7 +70,7 @@ class _FloatMeta(type):
         if isinstance(x, SymReal):
             return x
         if isinstance(x, np.ndarray) and x.dtype == object and x.size == 1:
-            e = x.reshape(())[()]
+            e = np.asarray(x).reshape(())[()]  # np.asarray: an ndarray subclass (unyt_quantity) would index to itself
             if isinstance(e, SymReal):
                 return e
             return float(e)
@@ -95,6 +95,13 @@ class MathShim:
         sa, sb = z3.simplify(A), z3.simplify(B)
         if sa.get_id() == sb.get_id():
             return True
+        # optional hook (additive): a SymReal subclass that knows an exact normal form of both operands may decide the
+        # CPython formula itself (returns True/False) or decline (returns None); see harness/unitterms_common.MonoReal
+        hook = getattr(a, "_isclose_hook", None)
+        if hook is not None:
+            r = hook(b, rel_tol, abs_tol)
+            if r is not None:
+                return r
         return SymBool(z3.Or(A == B, zabs(A - B) <= zmax(rv(rel_tol) * zmax(zabs(A), zabs(B)), rv(abs_tol))))
 
 
@@ -151,6 +158,16 @@ def _contains_sym(a):
     return False
 
 
+def _unwrap0d(a):
+    """NumPy unwraps 0-d float arrays found inside a sequence but keeps 0-d *object* arrays as elements: replace 0-d
+    object arrays (e.g. unyt_quantity around a SymReal) nested in a list/tuple by their element, as for floats"""
+    if isinstance(a, (list, tuple)):
+        return type(a)(_unwrap0d(x) for x in a) if type(a) in (list, tuple) else a
+    if isinstance(a, np.ndarray) and a.dtype == object and a.shape == ():
+        return np.asarray(a)[()]
+    return a
+
+
 class NpShim:
     """thin proxy of the numpy module: only float casts of symbolic payloads and the
     closeness predicates are overridden; everything else is numpy's own attribute"""
@@ -180,6 +197,8 @@ class NpShim:
             return obj0(a)
         if isinstance(a, np.ndarray) and a.dtype == object and (dtype is None or np.dtype(dtype).kind in "fc"):
             return np.asarray(a)
+        if isinstance(a, (list, tuple)):
+            a = _unwrap0d(a)
         if dtype is not None and np.dtype(dtype).kind in "fc" and _contains_sym(a):
             return np.asarray(a, dtype=object)
         return np.asarray(a, dtype=dtype, **k)
@@ -199,6 +218,8 @@ class NpShim:
             return obj0(a)
         if dtype is not None and np.dtype(dtype).kind in "fc" and _contains_sym(a):
             dtype = object
+        if isinstance(a, (list, tuple)):
+            a = _unwrap0d(a)
         return np.array(a, dtype=dtype, **k)
 
     def isscalar(self, x):
